@@ -154,3 +154,64 @@ Definition find_match (D : Z) (pos : list vec) (nums : list nat) (g : op) (i : n
 
 Definition perm_of_op (D : Z) (pos : list vec) (nums : list nat) (g : op) : list Z :=
   map (fun i => match find_match D pos nums g i with Some j => Z.of_nat j | None => -1 end) (seq 0 (length pos)).
+
+(** ** C10: the matching relation does not depend on how the crystal is described *)
+Section Descriptions.
+  Variable D : Z.
+  Hypothesis D_pos : 0 < D.
+  Variable pos : nat -> vec.
+  Variable num : nat -> nat.
+
+  (** adding integers to fractional coordinates (numerators change by multiples of D) *)
+  Lemma modv_add_mult p k : modv D (addv p (let '(k1, k2, k3) := k in (D * k1, D * k2, D * k3))) = modv D p.
+  Proof.
+    destruct p as [[p1 p2] p3], k as [[k1 k2] k3]. unfold modv, addv.
+    rewrite !(Z.mul_comm D), !Z_mod_plus_full. reflexivity.
+  Qed.
+
+  Theorem matches_invariant_under_wraps (wrap : nat -> vec) g i j :
+    matches D (fun a => addv (pos a) (let '(k1, k2, k3) := wrap a in (D * k1, D * k2, D * k3))) num g i j <-> matches D pos num g i j.
+  Proof.
+    unfold matches. rewrite <- (image_mod D D_pos g (addv (pos i) _)). rewrite !modv_add_mult.
+    rewrite (image_mod D D_pos). reflexivity.
+  Qed.
+
+  (** shifting the origin by c: the operation (r, s) becomes (r, s + c - r c), the permutation is unchanged *)
+  Definition shift_op (c : vec) (g : op) : op :=
+    (fst g, addv (addv (snd g) c) (let '(x, y, z) := mulmv (fst g) c in (- x, - y, - z))).
+
+  Lemma image_shift c g p : image D (shift_op c g) (addv p c) = modv D (addv (addv (mulmv (fst g) p) (snd g)) c).
+  Proof.
+    destruct g as [[[[[a b] c0] [[d e] f]] [[g0 h0] i0]] [[s1 s2] s3]]. destruct c as [[c1 c2] c3]. destruct p as [[p1 p2] p3].
+    unfold image, shift_op, mulmv, addv, modv, dotv. cbn [fst snd]. f_equal; [f_equal|]; f_equal; ring.
+  Qed.
+
+  Lemma modv_addv_congr a b c : modv D a = modv D b -> modv D (addv a c) = modv D (addv b c).
+  Proof.
+    destruct a as [[a1 a2] a3], b as [[b1 b2] b3], c as [[c1 c2] c3]. unfold modv, addv. intros H. injection H as H1 H2 H3.
+    rewrite (Zplus_mod a1), (Zplus_mod a2), (Zplus_mod a3), H1, H2, H3, <- !Zplus_mod. reflexivity.
+  Qed.
+
+  Lemma modv_addv_cancel a b c : modv D (addv a c) = modv D (addv b c) -> modv D a = modv D b.
+  Proof.
+    intros H. apply (modv_addv_congr _ _ (let '(x, y, z) := c in (- x, - y, - z))) in H.
+    destruct a as [[a1 a2] a3], b as [[b1 b2] b3], c as [[c1 c2] c3]. unfold modv, addv in *.
+    replace (a1 + c1 + - c1) with a1 in H by ring. replace (a2 + c2 + - c2) with a2 in H by ring. replace (a3 + c3 + - c3) with a3 in H by ring.
+    replace (b1 + c1 + - c1) with b1 in H by ring. replace (b2 + c2 + - c2) with b2 in H by ring. replace (b3 + c3 + - c3) with b3 in H by ring.
+    exact H.
+  Qed.
+
+  Theorem matches_invariant_under_origin_shift c g i j :
+    matches D (fun a => addv (pos a) c) num (shift_op c g) i j <-> matches D pos num g i j.
+  Proof.
+    unfold matches. rewrite image_shift. unfold image. split; intros [H Hn]; split; try exact Hn.
+    - apply (modv_addv_cancel _ _ c). exact H.
+    - apply modv_addv_congr. exact H.
+  Qed.
+
+  (** relabelling the atoms by a bijection phi conjugates the permutation *)
+  Theorem matches_under_relabelling (phi psi : nat -> nat) g i j :
+    (forall a, psi (phi a) = a) ->
+    matches D (fun a => pos (psi a)) (fun a => num (psi a)) g (phi i) (phi j) <-> matches D pos num g i j.
+  Proof. intros Hinv. unfold matches. rewrite !Hinv. reflexivity. Qed.
+End Descriptions.
